@@ -50,7 +50,7 @@ func AnyItem(tokens []string, depth int) *rapid.Generator[Item] {
 		case "bool":
 			it.N = int64(rapid.IntRange(0, 1).Draw(t, "n"))
 		case "f64", "f32", "c64":
-			it.FS = rapid.SampledFrom([]string{"", "", "", "nan", "+inf", "-inf", "1e+100", "-0.5", "0.1", "3.14", "1e21", "1e20", "-2.7e-7", "1e-6", "1e-7", "5e-324", "1.7976931348623157e308", "16777217", "123456.7"}).Draw(t, "fs")
+			it.FS = rapid.SampledFrom([]string{"", "", "", "nan", "+inf", "-inf", "1e+100", "-0.5", "-0", "-0", "0", "0.1", "3.14", "1e21", "1e20", "-2.7e-7", "1e-6", "1e-7", "5e-324", "1.7976931348623157e308", "16777217", "123456.7"}).Draw(t, "fs")
 			it.N = int64(rapid.IntRange(-100, 100).Draw(t, "n"))
 		case "i64", "u64":
 			it.N = rapid.SampledFrom([]int64{0, 1, -1, 42, 255, 1 << 31, 1<<53 + 1, math.MaxInt64, math.MinInt64, -1 << 40}).Draw(t, "n64")
